@@ -45,16 +45,19 @@ Definition inv (sets : list (qid * chunkset)) (st : state) : Prop :=
   tbl st = paths st /\
   forall i q, aget N.eqb i (qs st) = Some q -> qinv sets st i q.
 
-Lemma inv_init : forall sets ids, inv sets (init ids).
+Lemma inv_init_bound : forall sets t ids, inv sets (init_bound t ids).
 Proof.
-  intros sets ids. split; [reflexivity|].
-  intros i q Hget. unfold init in Hget. cbn [qs] in Hget.
+  intros sets t ids. split; [reflexivity|].
+  intros i q Hget. unfold init_bound in Hget. cbn [qs] in Hget.
   assert (Hq : q = init_q).
   { induction ids as [|k r IH]; cbn [map aget] in Hget; [discriminate|].
     destruct (N.eqb i k); [injection Hget as <-; reflexivity | exact (IH Hget)]. }
   subst q. unfold qinv, init_q. cbn [q_pc q_cap q_res].
   repeat split; intros; try lia; discriminate.
 Qed.
+
+Lemma inv_init : forall sets ids, inv sets (init ids).
+Proof. intros sets ids. apply inv_init_bound. Qed.
 
 Lemma register_tbl : forall s st, tbl st = paths st ->
   tbl (register s st) = s /\ paths (register s st) = s /\
@@ -177,6 +180,18 @@ Proof.
   destruct (Hall i q Hq) as [_ [_ [Hc _]]]. apply Hc. exact H.
 Qed.
 
+(* the same from a node whose table is already bound to some chunk set (a node
+   that served queries before) *)
+Theorem result_own_bound : forall sets t ids sched i c,
+  result (run proto_fixed sets sched (init_bound t ids)) i = Some c -> c = sel sets i.
+Proof.
+  intros sets t ids sched i c H.
+  destruct (run_inv sets sched (init_bound t ids) (inv_init_bound sets t ids)) as [_ Hall].
+  unfold result in H.
+  destruct (aget N.eqb i (qs (run proto_fixed sets sched (init_bound t ids)))) as [q|] eqn:Hq; [|discriminate].
+  destruct (Hall i q Hq) as [_ [_ [_ Hr]]]. apply Hr. exact H.
+Qed.
+
 Theorem result_own : forall sets ids sched i c,
   result (run proto_fixed sets sched (init ids)) i = Some c -> c = sel sets i.
 Proof.
@@ -244,6 +259,16 @@ Proof.
   destruct (run_cmds_inv sets cs [] (init ids) (inv_init sets ids)) as [_ Hall].
   unfold result in H.
   destruct (aget N.eqb i (qs (run_cmds proto_fixed sets cs [] (init ids)))) as [q|] eqn:Hq; [|discriminate].
+  destruct (Hall i q Hq) as [_ [_ [_ Hr]]]. apply Hr. exact H.
+Qed.
+
+Theorem cmds_result_own_bound : forall sets t ids cs i c,
+  result (run_cmds proto_fixed sets cs [] (init_bound t ids)) i = Some c -> c = sel sets i.
+Proof.
+  intros sets t ids cs i c H.
+  destruct (run_cmds_inv sets cs [] (init_bound t ids) (inv_init_bound sets t ids)) as [_ Hall].
+  unfold result in H.
+  destruct (aget N.eqb i (qs (run_cmds proto_fixed sets cs [] (init_bound t ids)))) as [q|] eqn:Hq; [|discriminate].
   destruct (Hall i q Hq) as [_ [_ [_ Hr]]]. apply Hr. exact H.
 Qed.
 
